@@ -191,3 +191,19 @@ M('C11', 'c11-break-on-nonmatch', [(CTL, "            else:\n                did
 V('C11', 'c11v-slice-reverse', [(CTL, "        return (list(reversed(acc)), len(acc)", "        return (acc[::-1], len(acc)")])
 V('C11', 'c11v-cap-is-none', [(CTL, "if cap and len(acc) >= cap:", "if cap is not None and len(acc) >= cap:")])
 V('C11', 'c11v-connection-is-not-none', [(CTL, "        if connection:\n            messages = connection.messages()", "        if connection is not None:\n            messages = connection.messages()")])
+
+# ---- C16 -----------------------------------------------------------------------------------------
+M('C16', 'c16-no-ms-scale', [(PARSE, ".replace(',', '.')) / 1000.0", ".replace(',', '.')) / 100.0")], 'C16.1')
+M('C16', 'c16-ge-threshold', [(CTL, "        if delta > 1.0:", "        if delta >= 1.0:")], 'C16.3')
+M('C16', 'c16-threshold-2', [(CTL, "        if delta > 1.0:", "        if delta > 2.0:")], 'C16.3')
+M('C16', 'c16-marker-only-on-sep', [(CTL, "            self.out.show(color(timestamp_color, '    ───┤ {:0.4f}s ├───'.format(delta)))\n        self.last_shown_timestamp = message.timestamp", "            self.out.show(color(timestamp_color, '    ───┤ {:0.4f}s ├───'.format(delta)))\n            self.last_shown_timestamp = message.timestamp\n        if self.last_shown_timestamp is None:\n            self.last_shown_timestamp = message.timestamp")], 'C16.3')
+M('C16', 'c16-absolute-time', [(MSG, "        self.timestamp = abs_time - Message.base_time", "        self.timestamp = abs_time")], 'C16.2')
+M('C16', 'c16-origin-every-message', [(MSG, "        if Message.base_time is None:\n            Message.base_time = abs_time", "        if Message.base_time is None or abs_time < Message.base_time:\n            Message.base_time = abs_time")], 'C16.2')
+M('C16', 'c16-origin-zero', [(MSG, "    base_time = None\n", "    base_time = 0.0\n")], 'C16.2')
+M('C16', 'c16-marker-in-live-view', [(CTL, "        self.all_messages.append(message)\n", "        self.all_messages.append(message)\n        self.last_shown_timestamp = message.timestamp\n")], 'C16.3')
+M('C16', 'c16-no-reset-after-listing', [(CTL, "                ')')\n            self.last_shown_timestamp = None", "                ')')")], 'C16.3')
+M('C16', 'c16-show-abs-time', [(MSG, "'{:7.4f}'.format(self.timestamp)", "'{:7.4f}'.format(self.timestamp + Message.base_time)")], 'C16.4')
+M('C16', 'c16-delta-abs', [(CTL, "        delta = message.timestamp - self.last_shown_timestamp if", "        delta = abs(message.timestamp - self.last_shown_timestamp) if")], 'C16.3')
+M('C16', 'c16-sep-after-message', [(CTL, "        self.last_shown_timestamp = message.timestamp\n        message.show(self.out)", "        message.show(self.out)\n        if delta > 1.0:\n            self.out.show('gap')\n        self.last_shown_timestamp = message.timestamp"), (CTL, "        if delta > 1.0:\n            self.out.show(color(timestamp_color, '    ───┤ {:0.4f}s ├───'.format(delta)))\n", "")], 'C16.3')
+V('C16', 'c16v-flipped', [(CTL, "        if delta > 1.0:", "        if 1.0 < delta:")])
+V('C16', 'c16v-explicit-if', [(CTL, "        delta = message.timestamp - self.last_shown_timestamp if self.last_shown_timestamp is not None else 0\n", "        if self.last_shown_timestamp is None:\n            delta = 0.0\n        else:\n            delta = message.timestamp - self.last_shown_timestamp\n")])
